@@ -87,7 +87,7 @@ struct [[nodiscard]] expected : destructor_crtp<E, T> {
 
 	expected &operator= (const expected &other) {
 		if(!indicates_error(other.e_)) {
-			T temp{*std::launder(reinterpret_cast<T *>(other.stor_))};
+			T temp{*std::launder(reinterpret_cast<const T *>(other.stor_))};
 			if(!indicates_error(e_))
 				std::launder(reinterpret_cast<T *>(stor_))->~T();
 			e_ = other.e_;
@@ -97,6 +97,7 @@ struct [[nodiscard]] expected : destructor_crtp<E, T> {
 				std::launder(reinterpret_cast<T *>(stor_))->~T();
 			e_ = other.e_;
 		}
+		return *this;
 	}
 
 	expected &operator= (expected &&other) {
